@@ -777,6 +777,77 @@ fn c05(run: &Run) -> i32 {
                     }
                 }
             });
+            // the same scripts given to the binary as one command-list argument (`engine "<commands>"`: every go is
+            // waited for before the next command is run, then the process ends by itself)
+            let oneshot: Vec<&Vec<u8>> = scripts.iter().filter(|s| s.len() <= 3 && s.iter().all(|c| b"INPHFD".contains(c)) && s.iter().any(|c| b"FD".contains(c))).collect();
+            let n1 = std::sync::atomic::AtomicU64::new(0);
+            util::par_for(oneshot.len(), |i| {
+                n1.fetch_add(1, std::sync::atomic::Ordering::Relaxed);
+                let mut lines: Vec<&str> = vec!["setoption name Hash value 1", "position startpos"];
+                let (mut gos, mut isr) = (0usize, 0usize);
+                for c in oneshot[i].iter() {
+                    match c {
+                        b'I' => {
+                            lines.push("isready");
+                            isr += 1;
+                        }
+                        b'N' => {
+                            lines.push("ucinewgame");
+                            lines.push("position startpos");
+                        }
+                        b'P' => lines.push("position startpos moves e2e4"),
+                        b'H' => lines.push("setoption name Hash value 2"),
+                        b'F' => {
+                            lines.push("go depth 1");
+                            gos += 1;
+                        }
+                        _ => {
+                            lines.push("go depth 3");
+                            gos += 1;
+                        }
+                    }
+                }
+                lines.push("isready");
+                isr += 1;
+                let arg = lines.join("\n");
+                let r = (|| -> Result<(), String> {
+                    let mut child = std::process::Command::new(&bin).arg(&arg).stdin(std::process::Stdio::null()).stdout(std::process::Stdio::piped()).stderr(std::process::Stdio::null()).spawn().map_err(|e| e.to_string())?;
+                    let deadline = std::time::Instant::now() + std::time::Duration::from_secs(20);
+                    loop {
+                        match child.try_wait() {
+                            Ok(Some(st)) => {
+                                let mut out = String::new();
+                                use std::io::Read;
+                                let _ = child.stdout.take().unwrap().read_to_string(&mut out);
+                                let bm = out.lines().filter(|l| l.starts_with("bestmove")).count();
+                                let ro = out.lines().filter(|l| l.starts_with("readyok")).count();
+                                if !st.success() {
+                                    return Err(format!("exit status {st}"));
+                                }
+                                if bm != gos || ro != isr {
+                                    return Err(format!("{bm} bestmove lines for {gos} go commands, {ro} readyok for {isr} isready"));
+                                }
+                                return Ok(());
+                            }
+                            Ok(None) => {
+                                if std::time::Instant::now() > deadline {
+                                    let _ = child.kill();
+                                    let _ = child.wait();
+                                    return Err("the process had not ended after 20 s".to_string());
+                                }
+                                std::thread::sleep(std::time::Duration::from_millis(5));
+                            }
+                            Err(e) => return Err(e.to_string()),
+                        }
+                    }
+                })();
+                if let Err(m) = r {
+                    run.violation("blackbox-hang", format!("blackbox-oneshot|script {}", String::from_utf8_lossy(oneshot[i])), J::obj(vec![("kind", J::s("uci-blackbox-oneshot")), ("script", J::s(String::from_utf8_lossy(oneshot[i]).to_string())), ("argument", J::s(arg.clone()))]), format!("optimised binary run as `engine \"{}\"`: {m}", arg.replace('\n', "\\n")));
+                }
+            });
+            let k1 = n1.load(std::sync::atomic::Ordering::Relaxed);
+            run.family("E7-ONESHOT", "well-formed scripts of length <= 3 without stop / quit / unbounded search and with at least one search, passed to the optimised binary as one command-list argument: the process must end by itself within 20 s with one bestmove per go and one readyok per isready", k1, k1, true, "");
+            *run.traces_validated.lock().unwrap() += k1;
             let k = n.load(std::sync::atomic::Ordering::Relaxed);
             run.family("E7-SCRIPTS", &format!("well-formed scripts of length <= {bb_len} (quick tier: all up to length 3, of length 4 those with a go, a stop and a ucinewgame/setoption) on the optimised binary with real threads; go infinite on the start position and, for scripts with an unbounded search, also on bare kings (the search exhausts its depth); scripts with a finite search also with Move Overhead 1000 and movetime / clock limits, with odd but valid phrasings of go (negative clock, double blanks), on positions with exactly one legal move under clock limits, and with limits of zero; 20 s per awaited answer"), k, k, true, "one schedule per script — a sample of schedules, not an enumeration");
             *run.traces_validated.lock().unwrap() += k;
@@ -904,6 +975,28 @@ fn main() {
             let j = J::parse(&text).expect("json");
             let case = j.get("case").cloned().unwrap_or(J::Null);
             let script = case.get("script").and_then(|x| x.as_str()).unwrap_or("").as_bytes().to_vec();
+            if case.get("kind").and_then(|x| x.as_str()) == Some("uci-blackbox-oneshot") {
+                let bin = blackbox::binary().expect("VERIF_ENGINE_BIN");
+                let arg = case.get("argument").and_then(|x| x.as_str()).unwrap_or("").to_string();
+                let mut child = std::process::Command::new(&bin).arg(&arg).stdin(std::process::Stdio::null()).stdout(std::process::Stdio::piped()).stderr(std::process::Stdio::null()).spawn().expect("spawn");
+                let deadline = std::time::Instant::now() + std::time::Duration::from_secs(20);
+                loop {
+                    match child.try_wait() {
+                        Ok(Some(st)) => {
+                            println!("replay: the process ended with {st}");
+                            std::process::exit(if st.success() { 0 } else { 1 });
+                        }
+                        _ => {
+                            if std::time::Instant::now() > deadline {
+                                let _ = child.kill();
+                                println!("replay: VIOLATION the process had not ended after 20 s");
+                                std::process::exit(1);
+                            }
+                            std::thread::sleep(std::time::Duration::from_millis(10));
+                        }
+                    }
+                }
+            }
             if case.get("kind").and_then(|x| x.as_str()) == Some("uci-blackbox-script") {
                 let tiny = matches!(case.get("tiny_tree"), Some(J::Bool(true)));
                 let overhead = case.get("mode").and_then(|x| x.as_i64()).unwrap_or(0) as u8;
